@@ -46,7 +46,60 @@ pub fn check_attr_step<const N: usize>(raw: &[u8], fixed_code: u8) -> Outcome {
     let bytes: [u8; N] = r.arr();
     let html = flags & 1 != 0;
     let check = flags & 2 != 0;
-    if fixed_code != 255 {
+    let mut html = html;
+    let mut check = check;
+    let mut nkeys = nkeys;
+    if fixed_code == 4 {
+        // canonical family of SkipEqValue states, reachable by construction through the public API:
+        // `Attributes::html("K K =...", 0)` yields Empty(K), then Duplicated for the second K and stops at its `=`
+        code = 3;
+        html = true;
+        check = true;
+        nkeys = 1;
+        let kl = keys[0].1;
+        require!(kl >= 1 && kl <= 2 && 2 * kl + 2 <= len);
+        keys[0] = (0, kl);
+        require!(is_ws(bytes[kl]));
+        let mut j = 0;
+        while j < 2 {
+            if j < kl {
+                require!(bytes[kl + 1 + j] == bytes[j] && !is_ws(bytes[j]) && bytes[j] != b'=');
+            }
+            j += 1;
+        }
+        // optional whitespace, then the `=`
+        require!(off >= 2 * kl + 1 && off < len && bytes[off] == b'=');
+        j = 0;
+        while j < N {
+            if j >= 2 * kl + 1 && j < off {
+                require!(is_ws(bytes[j]));
+            }
+            j += 1;
+        }
+    } else if fixed_code == 5 {
+        // canonical family of SkipValue states, reachable by construction: `Attributes::new("k = v...", 0)` in
+        // XML mode reports UnquotedValue at the first byte of v and stops there
+        code = 2;
+        html = false;
+        nkeys = if check { 1 } else { 0 };
+        keys[0] = (0, 1);
+        require!(len >= 3 && !is_ws(bytes[0]) && bytes[0] != b'=');
+        require!(off >= 2 && off < len);
+        // bytes[1..off] = ws* '=' ws*
+        let mut eq_seen = 0usize;
+        let mut j = 0;
+        while j < N {
+            if j >= 1 && j < off {
+                if bytes[j] == b'=' {
+                    eq_seen += 1;
+                } else {
+                    require!(is_ws(bytes[j]));
+                }
+            }
+            j += 1;
+        }
+        require!(eq_seen == 1);
+    } else if fixed_code != 255 {
         code = fixed_code;
     }
     require!(len <= N && code <= 3 && nkeys <= K);
